@@ -257,7 +257,13 @@ def shift_inline_swap(rnd, m):
 
 def comment_rewrite(rnd, text):
     out = []
+    in_block = False
     for line in text.split("\n"):
+        if in_block or ("/*" in line and "*/" not in line.split("/*", 1)[1]):
+            # inside a multi-line block comment nothing may be inserted (block comments do not nest)
+            in_block = "*/" not in (line.split("/*", 1)[1] if ("/*" in line and not in_block) else line)
+            out.append(line)
+            continue
         k = rnd.random()
         if k < 0.15:
             out.append('# comment { with " quote and ${macro} [x] }')
@@ -323,6 +329,20 @@ def macro_rewrite(rnd, text):
             out.append("  ${%s}" % name)
         else:
             out.append(line)
+    # comments must stay inert next to macros: a comment that mentions a defined macro, a commented-out (re)definition of
+    # a macro, and brackets / quotes inside a comment within a macro body
+    if defs and rnd.random() < 0.5:
+        # (a ']' inside a comment within a macro BODY is not used: macro bodies are raw text up to the matching bracket
+        #  in TaskJuggler, so that spelling is not meaning-preserving by anybody's reading)
+        k = rnd.randrange(3)
+        name0 = re.match(r"macro (\w+)", defs[0]).group(1)
+        if k == 0:
+            out.insert(rnd.randrange(1, len(out) + 1), "# was: ${%s}" % name0)
+        elif k == 1:
+            defs.append("# macro %s [ effort 99999min ]" % name0)
+        else:
+            defs.append("/* macro %s [\n  effort 77777min\n] */" % name0)
+            out.insert(rnd.randrange(1, len(out) + 1), "// ${%s} and ${undefined_thing}" % name0)
     # definitions must precede use in TaskJuggler; place them directly after the project header block
     res = []
     placed = False
